@@ -81,6 +81,8 @@ def report(ctx, case, why):
     P, inp, files = xcase.case_load(case)
     tier, mode = case.get('tier', 'quick'), case.get('mode', 'normal')
     cat = why.split(':')[0]
+    if 'timeout' in why:
+        driver.TIMEOUT_SCALE = 10
 
     def still(P2, i2, f2):
         with driver.Scratch('c08m') as s:
